@@ -1,6 +1,6 @@
 /-
 Helper lemmas for C20 (CountGenerator): with rules sorted by period and positive
-parameters (below 2^32 where they pass through `uint32`), `Generate` never panics, lies
+parameters (fitting a Go `int`, i.e. below 2^63), `Generate` never panics, lies
 between `Min` and `Max`, and is non-decreasing in `diff`.
 -/
 import Golib.Model.C20Count
@@ -10,33 +10,31 @@ set_option linter.unusedVariables false
 
 namespace Golib.C20
 
-/-- positive parameters (the two that go through `uint32(max)` below 2^32) -/
+/-- positive parameters; the two that go through `uint64(max)` fit a Go `int` -/
 structure Rule.OK (v : Rule) : Prop where
   period   : 0 < v.period
   interval : 0 < v.interval
   imax0    : 0 < v.intervalMaxIncr
-  imax1    : v.intervalMaxIncr < 2 ^ 32
+  imax1    : v.intervalMaxIncr < 2 ^ 63
   pmax0    : 0 < v.periodEndMaxIncr
-  pmax1    : v.periodEndMaxIncr < 2 ^ 32
+  pmax1    : v.periodEndMaxIncr < 2 ^ 63
 
 /-- periods non-decreasing along the list, starting at or above `last` -/
 def Sorted (last : Int) : List Rule → Prop
   | [] => True
   | v :: rs => last ≤ v.period ∧ Sorted v.period rs
 
-theorem getRand_range (n : Nat) (max : Int) (h0 : 0 < max) (h1 : max < 2 ^ 32) :
+theorem getRand_range (n : Nat) (max : Int) (h0 : 0 < max) (h1 : max < 2 ^ 63) :
     ∃ m, getRand n max = some m ∧ 1 ≤ m ∧ m ≤ max := by
   obtain ⟨k, rfl⟩ := Int.eq_ofNat_of_zero_le (Int.le_of_lt h0)
   have hk0 : 0 < k := by omega
-  have hk1 : k < 4294967296 := by omega
+  have hk1 : k < 9223372036854775808 := by omega
   have hne : ¬ ((k : Int) = 0) := by omega
-  have hm : ((k : Int) % 2 ^ 32).toNat = k := by omega
+  have hm : ((k : Int) % 2 ^ 64).toNat = k := by omega
   have hlt : n % k < k := Nat.mod_lt _ hk0
   have hmz : ¬ (k = 0) := by omega
-  refine ⟨((n % k + 1 : Nat) : Int), ?_, by omega, by omega⟩
+  refine ⟨((n % k : Nat) : Int) + 1, ?_, by omega, by omega⟩
   simp only [getRand, hne, if_false, hm, hmz]
-  have : (n % k + 1) % 2 ^ 32 = n % k + 1 := Nat.mod_eq_of_lt (by omega)
-  rw [this]
 
 theorem goDiv_pos (a b : Int) (ha : 0 ≤ a) (hb : 0 < b) :
     goDiv a b = some (a / b) ∧ 0 ≤ a / b := by
